@@ -23,12 +23,13 @@ func VerifC15Sample(d *Dialer, typ *NetworkType, lat time.Duration) {
 	d.informDialerGroupUpdate(update)
 }
 
-// VerifC15Fail runs markUnavailableInternal and returns (alive flag that will be told, the
-// deferred informDialerGroupUpdate).  Split in two so the caller can observe the backoff penalty
-// between the two steps, exactly where NotifyLatencyChange will read it.
-func VerifC15Fail(d *Dialer, typ *NetworkType, force, traffic bool) (bool, int, func()) {
+// VerifC15Fail runs markUnavailableInternal and returns (the dialer's alive flag afterwards — what
+// the sets are told: since 13e43e7 NotifyAliveState reads the flag at delivery — and the deferred
+// informDialerGroupUpdate).  Split in two so the caller can observe the backoff penalty between the
+// two steps, exactly where the set will read it.  No field of collectionUpdate is touched here.
+func VerifC15Fail(d *Dialer, typ *NetworkType, force, traffic bool) (bool, func()) {
 	u := d.markUnavailableInternal(typ, force, traffic)
-	return u.alive, len(u.aliveDialerGroups), func() { d.informDialerGroupUpdate(u) }
+	return d.MustGetAlive(typ), func() { d.informDialerGroupUpdate(u) }
 }
 
 // VerifC15Traffic = ReportAvailableTraffic (data-UDP revival by traffic); returns whether the sets
@@ -44,7 +45,9 @@ func VerifC15Traffic(d *Dialer, typ *NetworkType) bool {
 // outcome 0: success -> ("sample", the latency Check measured and stored, true)
 // outcome 1: ok=false, err=nil ("no applicable IP") -> ("skip", 0, current flag): nothing may change
 // outcome 2: error -> ("told", 0, alive flag after markUnavailable)
-func VerifC15Probe(d *Dialer, typ *NetworkType, outcome int) (string, time.Duration, bool) {
+// periodic: go through the internal check() with a non-nil cycleResult, as the production
+// aliveBackground -> submitCheckTasks path does (the exported Check passes cycle == nil).
+func VerifC15Probe(d *Dialer, typ *NetworkType, outcome int, periodic, resuscitation bool) (string, time.Duration, bool) {
 	opts := &CheckOption{networkType: typ, CheckFunc: func(ctx context.Context, _ *NetworkType) (bool, error) {
 		switch outcome {
 		case 0:
@@ -55,7 +58,11 @@ func VerifC15Probe(d *Dialer, typ *NetworkType, outcome int) (string, time.Durat
 			return false, errors.New("verif: probe failed")
 		}
 	}}
-	_, _ = d.Check(opts)
+	if periodic {
+		_, _ = d.check(opts, resuscitation, &cycleResult{})
+	} else {
+		_, _ = d.Check(opts)
+	}
 	switch outcome {
 	case 0:
 		l, _ := d.mustGetCollection(typ).Latencies10.LastLatency()
@@ -83,7 +90,7 @@ func VerifC15Penalty(d *Dialer, typ *NetworkType) time.Duration {
 
 func verifC15Min(idx map[*Dialer]int, d *Dialer, l time.Duration) string {
 	if d == nil {
-		return "nil:" + strconv.FormatInt(int64(l), 10)
+		return "nil" // the latency handed out next to "nobody" is a placeholder
 	}
 	i, ok := idx[d]
 	if !ok {
